@@ -68,3 +68,119 @@ def monomial_derivative():
             print('REPLAY: VIOLATION-CONFIRMED the derivative of a factored polynomial is wrong')
             return
     print('REPLAY: not reproduced')
+
+
+def _expect_derivative(function, f, var):
+    """the documented outcome of derivative(f, var): ('raise',) or (shape, dtype, arguments, name of the evaluable target)"""
+    if isinstance(var, str):
+        if var not in f.arguments:
+            return ('raise',)
+        vshape, vdtype = f.arguments[var]
+        vname = var
+    elif isinstance(var, function.Argument):
+        vname, vshape, vdtype = var.name, var.shape, var.dtype
+        if vname in f.arguments and f.arguments[vname] != (vshape, vdtype):
+            return ('raise',)
+    else:
+        return ('raise',)
+    args = dict(f.arguments)
+    args[vname] = (vshape, vdtype)
+    return (f.shape + vshape, complex if vdtype == complex else f.dtype, args, vname, vshape, vdtype)
+
+
+def derivative(varkind):
+    """small concrete family: f = u_i g_j with u:(2,) float, g:(3,) float; var in several spellings incl. wrong shapes/dtypes"""
+    from nutils import function
+    u = function.Argument('u', (2,), float)
+    g = function.Argument('g', (3,), float)
+    c = function.Argument('c', (), complex)
+    n = function.Argument('n', (2,), int)
+    A = function.Argument
+    for f in (u[:, numpy.newaxis] * g[numpy.newaxis, :] * n[0], u[:, numpy.newaxis] * g[numpy.newaxis, :] * c * n[0]):
+        if not _derivative_family(function, f, varkind, u, g, A):
+            return
+    print('REPLAY: not reproduced')
+
+
+def _derivative_family(function, f, varkind, u, g, A):
+    family = {'name': ['u', 'g', 'zz', 'c', 'n'], 'argument': [A('c', (), complex), A('c', (), float), A('n', (2,), int), A('u', (2,), float), A('g', (3,), float), A('u', (3,), float), A('u', (2,), complex), A('g', (3, 1), float), A('w', (4, 5), complex), A('w', (), float)],
+              'other': [3, None, 1.5]}[varkind]
+    for var in family:
+        want = _expect_derivative(function, f, var)
+        what = 'derivative(u_i g_j, %s)' % (var if not isinstance(var, A) else 'Argument(%r, %r, %s)' % (var.name, var.shape, var.dtype.__name__),)
+        try:
+            d = function.derivative(f, var)
+        except ValueError as e:
+            if want != ('raise',):
+                print('%s raised ValueError: %s' % (what, e))
+                print('REPLAY: VIOLATION-CONFIRMED a valid derivative target is rejected')
+                return False
+            continue
+        except Exception as e:
+            print('%s raised %s: %s' % (what, type(e).__name__, e))
+            print('REPLAY: VIOLATION-CONFIRMED derivative raised %s instead of ValueError' % type(e).__name__)
+            return False
+        if want == ('raise',):
+            print('%s accepted: shape %r arguments %r' % (what, d.shape, dict(d.arguments)))
+            print('REPLAY: VIOLATION-CONFIRMED an inconsistent derivative target is accepted')
+            return False
+        ev = d._eval_var
+        got = (d.shape, d.dtype, dict(d.arguments), ev.name, tuple(int(n.__index__()) for n in ev.shape), ev.dtype)
+        if got != want or d.spaces != f.spaces:
+            print('%s announces %r, expected %r' % (what, got, want))
+            print('REPLAY: VIOLATION-CONFIRMED derivative announces the wrong shape/dtype/arguments/target')
+            return False
+        # the derivative evaluates to the analytic one (f is bilinear)
+        if ev.name in ('u', 'g') and ev.dtype == float:
+            uv, gv = numpy.array([1., 2.]), numpy.array([3., 5., 7.])
+            val = function.eval(d, arguments=dict(u=uv, g=gv, c=1., n=numpy.array([1, 0])))
+            ref = numpy.einsum('ik,j->ijk', numpy.eye(2), gv) if ev.name == 'u' else numpy.einsum('i,jk->ijk', uv, numpy.eye(3))
+            if val.shape != ref.shape or not numpy.allclose(val, ref):
+                print('%s evaluates to\n%r\nexpected\n%r' % (what, val, ref))
+                print('REPLAY: VIOLATION-CONFIRMED derivative evaluates to the wrong array')
+                return False
+    return True
+
+
+def linearize(spelling, valkind):
+    """f = u_i g_j; linearize(f, u:v) in the given spelling must have shape (2, 3), arguments u, g, v:(2,) float and evaluate to v_i g_j"""
+    from nutils import function
+    u = function.Argument('u', (2,), float)
+    g = function.Argument('g', (3,), float)
+    f = u[:, numpy.newaxis] * g[numpy.newaxis, :]
+    for key, new in (('u', 'v'), ('g', 'h'), ('u', 'g'), ('g', 'u')):
+        shape, dtype = f.arguments[key]
+        val = new if valkind == 'name' else function.Argument(new, shape, dtype)
+        spec = {'dict': lambda: {key: val}, 'pairs': lambda: [(key, val)], 'str': lambda: '%s:%s' % (key, val), 'strs': lambda: ('%s:%s' % (key, val),)}[spelling]()
+        clash = new in f.arguments and f.arguments[new] != (shape, dtype)
+        try:
+            lin = function.linearize(f, spec)
+        except ValueError as e:
+            if not clash:
+                print('linearize(u_i g_j, %r) raised ValueError: %s' % (spec, e))
+                print('REPLAY: VIOLATION-CONFIRMED a valid linearization is rejected')
+                return
+            continue
+        except Exception as e:
+            print('linearize(u_i g_j, %r) raised %s: %s' % (spec, type(e).__name__, e))
+            print('REPLAY: VIOLATION-CONFIRMED linearize raised %s' % type(e).__name__)
+            return
+        want = dict(f.arguments)
+        want[new] = (shape, dtype)
+        if clash or lin.shape != f.shape or dict(lin.arguments) != want or lin.dtype != float or lin.spaces != f.spaces:
+            print('linearize(u_i g_j, %r): shape %r dtype %s arguments %r; expected shape %r arguments %r' % (spec, lin.shape, lin.dtype, dict(lin.arguments), f.shape, want))
+            print('REPLAY: VIOLATION-CONFIRMED linearize announces the wrong shape/arguments')
+            return
+        vals = dict(u=numpy.array([1., 2.]), g=numpy.array([3., 5., 7.]))
+        dirv = numpy.array([.5, -1.]) if key == 'u' else numpy.array([2., 0., -1.])
+        if new not in vals:
+            vals[new] = dirv
+        else:
+            dirv = vals[new]
+        got = function.eval(lin, arguments=vals)
+        ref = dirv[:, None] * vals['g'][None, :] if key == 'u' else vals['u'][:, None] * dirv[None, :]
+        if not numpy.allclose(got, ref):
+            print('linearize(u_i g_j, %r) evaluates to\n%r\nexpected the directional derivative\n%r' % (spec, got, ref))
+            print('REPLAY: VIOLATION-CONFIRMED linearize is not the directional derivative')
+            return
+    print('REPLAY: not reproduced')
